@@ -781,7 +781,7 @@ def search(ctx, prior):
 
 
 def replay(ctx, doc):
-    if doc["failure"]["input"].get("kind") == "ipv6-history":
+    if doc["failure"]["input"].get("kind") in ("ipv6-history", "data-ports-form"):
         from props import c11_extra
 
         return c11_extra.replay(doc["failure"]["input"])
